@@ -50,7 +50,7 @@ var baseWeights = map[string]int{
 var stepOrder = []string{"upsert", "delete", "compact", "gossip", "deliver", "drop", "dup", "deliverAll", "advance", "liveness", "sweep", "leave", "leaveVia", "close", "crash", "join", "addConn", "removeConn", "partition", "heal", "toExpiry", "silence", "forge"}
 
 var simKeys = []string{"a", "b", "c", "d", "kéy", ""}
-var simEps = []string{"e0", "e1", "e2"}
+var simEps = []string{"e0", "e1", "E1"} // the last is a case variant of the second
 
 const gossipInterval = 100 * time.Millisecond
 
